@@ -26,6 +26,8 @@ type Sess struct {
 	structs      map[string]*types.Struct // sort name -> struct
 	structT      map[string]types.Type
 	typeIDs      map[string]int
+	typeObjs     map[int]types.Type
+	ifaceFns     map[int]*types.Interface
 	notes        []string // unsupported / havocked notes
 	notesSet     map[string]bool
 	heapSort     map[string]string // heap key -> sort of the array
@@ -471,7 +473,58 @@ func (s *Sess) typeID(t types.Type) int {
 	}
 	id := len(s.typeIDs) + 1
 	s.typeIDs[k] = id
+	if s.typeObjs == nil {
+		s.typeObjs = map[int]types.Type{}
+	}
+	s.typeObjs[id] = t
+	// which of the interfaces asked about so far this (concrete) dynamic type implements: facts of Go's type system
+	for _, iid := range sortedIntKeys(s.ifaceFns) {
+		s.implFact(iid, id)
+	}
 	return id
+}
+
+// implementsFn declares implements_<k>(dynamic type id) for the interface type at and states it for every dynamic
+// type known to the session (and, through typeID, for every one that appears later).
+func (s *Sess) implementsFn(at types.Type) string {
+	iid := s.typeID(at)
+	fn := fmt.Sprintf("implements_%d", iid)
+	if s.ifaceFns == nil {
+		s.ifaceFns = map[int]*types.Interface{}
+	}
+	if _, ok := s.ifaceFns[iid]; !ok {
+		ifc, _ := types.Unalias(at).Underlying().(*types.Interface)
+		s.declFun(fn, []string{"Int"}, "Bool")
+		s.ifaceFns[iid] = ifc
+		for _, tid := range sortedIntKeys(s.typeObjs) {
+			s.implFact(iid, tid)
+		}
+	}
+	return fn
+}
+
+func (s *Sess) implFact(iid, tid int) {
+	ifc, t := s.ifaceFns[iid], s.typeObjs[tid]
+	if ifc == nil || t == nil {
+		return
+	}
+	if _, isIface := types.Unalias(t).Underlying().(*types.Interface); isIface {
+		return
+	}
+	v := "false"
+	if types.Implements(t, ifc) {
+		v = "true"
+	}
+	s.axioms = append(s.axioms, fmt.Sprintf("(assert (= (implements_%d %d) %s))", iid, tid, v))
+}
+
+func sortedIntKeys[V any](m map[int]V) []int {
+	var ks []int
+	for k := range m {
+		ks = append(ks, k)
+	}
+	sort.Ints(ks)
+	return ks
 }
 
 func and(xs ...string) string {
